@@ -133,3 +133,48 @@ Print Assumptions C15_ok_says.
 Print Assumptions C15_example.
 Print Assumptions C15_lazy_copy_refuted.
 Print Assumptions C15_scratch_line_refuted.
+
+(* generated-code tie, stage 6: Line.Copy.  Gen/GoLineCopy.v holds the Gallina TRANSLATION
+   (translator/go2heap.go, regenerated on every check run) of the Go body of the Copy method of
+   Line (client/line.go) over an explicit heap: nl := *l reads the nine fields of the object into
+   local variables; []string is (address of the backing array or nil, length) with the arrays in a
+   heap of their own, make([]string, n) allocates n empty strings, copy(dst, src) writes
+   min(len dst, len src) elements from index 0 (and reads nothing when that is 0);
+   map[string]string is a heap object of an abstract map type, make allocates the empty map,
+   nl.Tags[k] = v writes the object (accepted only for a map made in this function), range
+   l.Tags enumerates the map VALUE found at loop entry through the class field enumS (nil: no
+   entries); return &nl allocates the Line object from the local variables; time.Time is an
+   opaque value; ONE allocation counter.
+   Model/LineCopy.v keeps the three kinds of objects in one list (address = index); with the
+   single counter the generated code allocates in the model's order — Args array, Tags map, Line
+   — so GenEqLineCopy.sim g hp is: the counter is pn (length hp) and each of the three heaps is
+   the view of hp at the objects of its kind (a Line's six scalars are the model's lo_scal list;
+   abstract map = tagmap, set = tags_set, enumS = the model's enum; Time is not modelled).
+   Copy preserves the relation and returns the corresponding address, for every run on which the
+   model does not panic (the model reads the Args array even for length 0 and panics on a
+   dangling index; Go's copy of 0 elements reads nothing). *)
+From Verif Require GoLineCopy GenEqLineCopy.
+Theorem gen_C15_Copy : forall enum g hp a hp' a', GenEqLineCopy.sim g hp ->
+  copy_line enum hp a = Ok (hp', a') ->
+  exists g', @GoLineCopy.go_Line_Copy (GenEqLineCopy.impl_ops enum) g (Some (GenEqLineCopy.pn a))
+             = Some (g', Some (GenEqLineCopy.pn a'))
+             /\ GenEqLineCopy.sim g' hp'.
+Proof. exact GenEqLineCopy.go_Line_Copy_sim. Qed.
+(* composed with C15_copy_deep: on a readable line with well-formed keys the GENERATED Copy does
+   not panic, allocates only fresh objects and returns a line equal to the original *)
+Theorem gen_C15_Copy_deep : forall enum, (forall m, Permutation (enum m) m) ->
+  forall g hp p v0, GenEqLineCopy.sim g hp -> read_line hp p = Ok v0 -> keys_ok v0 ->
+  exists g' ext a v,
+    @GoLineCopy.go_Line_Copy (GenEqLineCopy.impl_ops enum) g (Some (GenEqLineCopy.pn p))
+      = Some (g', Some (GenEqLineCopy.pn a))
+    /\ GenEqLineCopy.sim g' (hp ++ ext)
+    /\ read_line (hp ++ ext) a = Ok v /\ lval_eq v v0
+    /\ (forall x, In x (addrs (hp ++ ext) a) -> length hp <= x < length (hp ++ ext)).
+Proof.
+  intros enum HP g hp p v0 Hs Hr Hk.
+  destruct (C15_copy_deep enum HP hp p v0 Hr Hk) as (ext & a & v & Hc & Hr' & He & _ & _ & Hfresh).
+  destruct (GenEqLineCopy.go_Line_Copy_sim enum g hp p _ _ Hs Hc) as (g' & Hg & Hs').
+  exists g', ext, a, v. split; [exact Hg|]. split; [exact Hs'|]. split; [exact Hr'|]. split; [exact He|exact Hfresh].
+Qed.
+Print Assumptions gen_C15_Copy.
+Print Assumptions gen_C15_Copy_deep.
